@@ -250,10 +250,77 @@ Definition sender_ok (c : case) (r : orecv) : bool :=
 Definition oracle_c13 (c : case) : bool :=
   negb (o_hang (c_obs c)) && forallb or_full (o_recvs (c_obs c)) && forallb (sender_ok c) (o_recvs (c_obs c)).
 
+(* C12 (last sentence): the engine's lifecycle events are published for every
+   occurrence.  What must have been published is computed from the delivery
+   stream and the script alone, without the model run:
+   - ActorInitializedEvent / ActorStartedEvent after every Initialized /
+     Started delivery whose handler does not panic;
+   - at a Stopped delivery that follows a delivery whose handler panics: an
+     ActorRestartedEvent numbered 1, 2, 3, … while the budget lasts (none for an
+     InternalError panic), ActorMaxRestartsExceededEvent and ActorStoppedEvent
+     when it is spent;
+   - ActorStoppedEvent at any other Stopped delivery (stop / poison);
+   in this order, exactly these.  Dead letters appear only after
+   ActorStoppedEvent and nothing else follows it; ActorStoppedEvent was
+   published iff the actor is unregistered at the end; every payload sent is
+   dead-lettered exactly as often as it was sent and not delivered. *)
+Fixpoint panic_kind (acts : list action) : option bool :=      (* Some internal? *)
+  match acts with
+  | [] => None
+  | APanic :: _ => Some false
+  | APanicInternal :: _ => Some true
+  | _ :: l => panic_kind l
+  end.
+
+Definition is_deadm (e : mevent) : bool := match e with MDeadUser _ | MDeadPill => true | _ => false end.
+
+(* k: restarts counted so far; pend: the previous delivery panicked (internal?) *)
+Fixpoint expected_events (tbl : list rule) (maxr k : nat) (pend : option bool) (l : list orecv) : list mevent :=
+  match l with
+  | [] => []
+  | r :: l' =>
+    match or_msg r with
+    | LStopped =>
+      match pend with
+      | Some false => if Nat.eqb k maxr then MMaxRestarts :: MStopped :: expected_events tbl maxr k None l'
+                      else MRestarted (S k) :: expected_events tbl maxr (S k) None l'
+      | Some true => expected_events tbl maxr k None l'
+      | None => MStopped :: expected_events tbl maxr k None l'
+      end
+    | m =>
+      let pk := panic_kind (lookup tbl (or_inc r) m) in
+      match m, pk with
+      | LInit, None => [MInitialized]
+      | LStarted, None => [MStarted]
+      | _, _ => []
+      end ++ expected_events tbl maxr k pk l'
+    end
+  end.
+
+Fixpoint dead_after_stopped (l : list mevent) : bool :=
+  match l with
+  | [] => true
+  | MStopped :: l' => forallb is_deadm l'
+  | e :: l' => negb (is_deadm e) && dead_after_stopped l'
+  end.
+
+Definition cntb (n : nat) (l : list nat) : nat := length (filter (Nat.eqb n) l).
+
+Definition oracle_c12 (c : case) : bool :=
+  let o := c_obs c in
+  negb (o_hang o) && negb (o_escaped o) &&
+  all2 mevent_eqb (filter (fun e => negb (is_deadm e)) (o_events o))
+                  (expected_events (c_table c) (c_maxr c) 0 None (o_recvs o)) &&
+  dead_after_stopped (o_events o) &&
+  Bool.eqb (o_registered o) (negb (existsb (fun e => mevent_eqb e MStopped) (o_events o))) &&
+  forallb (fun n => Nat.eqb (cntb n (user_payloads (o_recvs o)) + cntb n (dead_payloads (o_events o))) (cntb n (o_sends o)))
+          (o_sends o ++ user_payloads (o_recvs o) ++ dead_payloads (o_events o)).
+
 Definition oracle (c : case) : bool :=
   match c_prop c with
   | 4 => oracle_c04 c | 5 => oracle_c05 c | 6 => oracle_c06 c | 7 => oracle_c07 c | 13 => oracle_c13 c
-  | _ => oracle_c04 c && oracle_c05 c && oracle_c06 c && oracle_c07 c && oracle_c13 c
+  | 12 => oracle_c12 c
+  | _ => oracle_c04 c && oracle_c05 c && oracle_c06 c && oracle_c07 c && oracle_c13 c && oracle_c12 c
   end.
 
 (** ** Branch tags (from the model run): 1 restart, 2 max restarts exceeded,
